@@ -128,6 +128,7 @@ func run(c *kernel.Ctx) {
 			}
 		},
 		UTXOShare:   [2]int{3, 4},
+		NoContracts: true, // code changes at a destination are C15's subject
 		ExtraWeight: 3,
 		Extra: func(e *mp.Engine, t *kernel.Tape) string {
 			if h == nil {
